@@ -149,6 +149,23 @@ pub fn gen(ctx: &mut Ctx) {
                 ctx.req(&format!("offsets {}", hx(&assemble(&lead, &sig, 0x55, &hdr, &pay))));
             }
         }
+        // a STRING entry that runs into the end of the data section without its NUL (accepted by the parser): in the signature
+        // header, in the main header, in both; with every store length mod 8 (seed C16-10: the parser "repaired" the store by
+        // appending the NUL while the recorded section size stayed)
+        for pre in 0..8usize {
+            for which in 0..3 {
+                let mk = |unterminated: bool| {
+                    let mut h = GHeader::new();
+                    h.push(1000, 7, &TData::Bytes(vec![0x11; pre]));
+                    if unterminated { h.push(1001, 6, &TData::Bytes(b"abc".to_vec())); } else { h.push(1001, 6, &TData::Str(b"abc".to_vec())); }
+                    h
+                };
+                let sig = mk(which != 1);
+                let hdr = mk(which != 0);
+                let lead = gen_lead(&mut rng, false);
+                ctx.req(&format!("offsets {}", hx(&assemble(&lead, &sig, 0, &hdr, &[9u8; 25]))));
+            }
+        }
         if ctx.thorough {
             // the >= 4 GiB guard of the old u32 arithmetic: stores just below 2^32 (8-9 GiB of RAM, ~20 s)
             ctx.req("offbig 4294967280");
